@@ -130,7 +130,7 @@ func (e *Engine) intrinsic(st *State, fn *ssa.Function, name string, args []Valu
 	}
 	switch base {
 	case "vAssume":
-		e.assume(st, args[0].L[0])
+		e.assumeStated(st, args[0].L[0])
 		return nil, st, true
 	case "vAssert":
 		e.oblige(st, label(0), KindAssert, args[1].L[0], pos, "assertion "+label(0))
@@ -140,12 +140,12 @@ func (e *Engine) intrinsic(st *State, fn *ssa.Function, name string, args []Valu
 			f := e.curCtr()
 			e.oblige(st, "call:"+f.target+".requires", KindPre, args[0].L[0], pos, "precondition of "+f.target+" at call from "+e.callerOfWrapper())
 		} else {
-			e.assume(st, args[0].L[0])
+			e.assumeStated(st, args[0].L[0])
 		}
 		return nil, st, true
 	case "vEnsures":
 		if mode == modeUse {
-			e.assume(st, args[1].L[0])
+			e.assumeStated(st, args[1].L[0])
 		} else {
 			e.oblige(st, label(0), KindEnsures, args[1].L[0], pos, "postcondition "+label(0))
 		}
